@@ -185,6 +185,40 @@ CHECKS = {
             "the fetch rule (32-bit iff top five bits 11101/11110/11111, word = hw1:hw2, independent of mode / E / IT) is "
             "checked for every first halfword through fetch_instruction().",
             "As C06. One open known finding (CBZ offset scaling).", "3 C07"),
+    "C04": ("product enumeration of branch instances (complete offset fields where small, complete 2^20/2^24 sweeps in "
+            "thorough) and of one instance of every encoding row, stepped on the real emulator and compared with the model",
+            "(a) every branch row: B T1 all 2^8 offsets x 14 conditions x pass/fail, B T2 all 2^11, CBZ/CBNZ all 2^6 x zero/"
+            "non-zero, walking-bit and sign x size alphabets for the 20/24-bit offsets (thorough: ALL 2^20 / 2^24 encodings), "
+            "BX/BLX register targets with low bits 00/01/11, TBB/TBH entries; x instruction addresses {0, 2/4, mid, the last "
+            "slots below 2^32} x arch versions 4..7 x mode: target, LR, T bit, alignment and the frame condition. (b) one "
+            "predictable non-PC-writing instance of every row of the dp/media/ldst/block/branch tables (507 rows) at every "
+            "address: PC advances by exactly 2/4 modulo 2^32; 78 PC-as-source instances observe own address + 8 / + 4. "
+            "(c) ALU and load writes to the PC under versions 4..7.",
+            "Trusted: armmc/ref/rows_branch.py and the other row modules. One open known finding (CBZ offset scaling).",
+            "3 C04"),
+    "C14": ("product enumeration of MPU region sets x boundary addresses x access kinds on translate_address() against an "
+            "independent PMSA model, and of load/store instructions whose k-th access hits a denied window",
+            "(a) two (thorough: three) programmed regions at region-number pairs (0,1),(0,11),(3,7),(7,3) x enable x size x "
+            "placement (nested / overlapping / adjacent / disjoint) x subregion-disable x AP, every RSize 4..31, the full AP x "
+            "AP table, MPU off; each at both sides of every region and subregion boundary x read/write x privileged/"
+            "unprivileged x SCTLR.BR: outcome, DFSR[13:0], DFAR, physical address and the 223-location frame condition. "
+            "(b) 107 load/store instruction forms (single, dual, unprivileged, LDM/STM in all modes, PUSH/POP; ARM and Thumb) "
+            "on 8 window layouts with the window start at every word k of the transfer and at unaligned addresses: on a fault "
+            "the whole post-state equals pre-state + data-abort record + Data Abort entry (no write-back, no data "
+            "transferred to denied locations, LR_abt, SPSR_abt, vector); a permitted run equals the MPU-off run.",
+            "Trusted: armmc/ref/pmsa.py, ref/exc.py. Registers loaded before a fault are UNKNOWN (don't-care). One open known "
+            "finding (PUSH.W unaligned SP).", "3 C14"),
+    "C15": ("product enumeration of generated translation tables x control registers x addresses on translate_address() "
+            "and LDR/STR against independent short- and long-descriptor walkers",
+            "Translation tables are generated in RAM for TTBCR.N 0..7 x TTBR0/TTBR1 x first-level {fault, page table, "
+            "section, supersection, reserved} x second-level {fault, large, small} x AP[2:0] x domain x DACR field x XN/nG/S/"
+            "TEX/C/B x SCTLR.{M,AFE,HA,EE,TRE} x FCSE PID x PD0/PD1 x VA at start / end / interior / unmapped x read/write x "
+            "privileged/unprivileged, and for the long-descriptor format (EAE=1) T0SZ/T1SZ, start level 1/2, table / block / "
+            "page, APTable/NSTable, AF, AP; physical address, NS, memory type, fault kind + level + domain in DFSR, DFAR and "
+            "the frame condition are compared, a subset through LDR/STR/LDRT/STRT with the complete Data Abort entry. Paths "
+            "ending in a documented mock hook must end in NotImplementedError at exactly that hook.",
+            "Trusted: armmc/ref/vmsa.py. Not covered: stage 2 / Hyp, instruction-side XN, long-descriptor DFSR encoding "
+            "(behind a mock).", "3 C15"),
 }
 NOT_YET = "check not built yet in this round (see DESIGN.md section 3 for the planned bounded-exhaustive formulation)"
 
